@@ -37,6 +37,25 @@ func (r *Run) call(st *State, fr *Frame, x *ssa.Call, b *ssa.BasicBlock, idx int
 	}
 	if fr.depth == 0 && fr.spec != nil {
 		for _, c := range fr.spec.Clauses {
+			if c.Kind == "callsite" {
+				name := ""
+				if callee != nil {
+					name = callee.Name()
+				} else if com.IsInvoke() {
+					name = com.Method.Name()
+				}
+				if name == c.Text {
+					env := r.specEnv(st, fr, "inv")
+					vars := map[string]*Val{}
+					for i, a := range args {
+						vars[fmt.Sprintf("arg%d", i)] = a
+					}
+					g := env.with(vars).evalBool(c.Expr)
+					r.oblige(st, fmt.Sprintf("callsite(%s).requires%d", c.Text, c.Ord), c.Props, r.v.pos(x.Pos()), g)
+					st.assume(g)
+				}
+				continue
+			}
 			if c.Kind != "at" {
 				continue
 			}
@@ -552,7 +571,7 @@ func (r *Run) havocAllKeepingLocals(st *State, fr *Frame, args []*Val) {
 	}
 	var keep []saved
 	for _, b := range st.boxes {
-		if escaped[b.addr.Ref.String()] {
+		if escaped[b.addr.Ref.String()] || st.escaped[b.addr.Ref.String()] {
 			continue
 		}
 		keep = append(keep, saved{b, r.load(st, b.addr, b.t, fr.te)})
